@@ -89,17 +89,17 @@ func main() {
 		// deterministic corpus: the witnesses of the _refuted theorems, replayed on the implementation first
 		jobs = append(jobs, corpus()...)
 		jobs = append(jobs, Replay{Kind: "ci", Ci: ciGrowthCase()})
-		ne2e := c.N(56)
+		ne2e := c.N(48)
 		for i := 0; i < ne2e; i++ {
 			jobs = append(jobs, Replay{Kind: "e2e", E2E: genE2E(c.Rng.Fork(), i)})
 		}
-		for i := 0; i < c.N(120); i++ {
+		for i := 0; i < c.N(90); i++ {
 			jobs = append(jobs, Replay{Kind: "tree", Tree: genTree(c.Rng.Fork(), i)})
 		}
 		for i := 0; i < c.N(60); i++ {
 			jobs = append(jobs, Replay{Kind: "ci", Ci: genCi(c.Rng.Fork(), i)})
 		}
-		for i := 0; i < c.N(120); i++ {
+		for i := 0; i < c.N(80); i++ {
 			jobs = append(jobs, Replay{Kind: "iw", Iw: genIw(c.Rng.Fork())})
 		}
 		for i := 0; i < c.N(80); i++ {
